@@ -51,37 +51,38 @@ type loopInfo struct {
 }
 
 type Exec struct {
-	E           *Engine
-	fn          *ssa.Function
-	c           *Contract
-	obls        []*Obligation
-	wrote       map[string]bool
-	entryHeap   map[string]*smt.Term
-	entryPC     []*smt.Term
-	epoch       string
-	loops       map[*ssa.BasicBlock]*loopInfo
-	paths       int
-	maxPaths    int
-	unsup       []string
-	params      map[string]SVal // contract param name -> entry value
-	counters    map[string]int
-	inlineDepth int
-	retHandler  func(s *State, results []Val) // non-nil while inlining
-	curInstr    ssa.Instruction
-	forks       []fork
-	curStop     *ssa.BasicBlock
-	curOut      *[]arrival
-	pdoms       map[*ssa.Function]map[*ssa.BasicBlock]*ssa.BasicBlock
-	noMerge     bool
-	mergeAfter  int
-	havocKeep   map[string]bool // write-restricted heap entries the call being havocked cannot change
-	cuts        map[ssa.Instruction]*spec.CutSpec
-	cutDone     map[*spec.CutSpec]bool
-	wholeFn     *loopInfo
-	forkCount   int
-	pkgShort    string
-	isInit      bool
-	returns     int
+	E            *Engine
+	stackStructs []stackStruct // struct locals whose address does not escape
+	fn           *ssa.Function
+	c            *Contract
+	obls         []*Obligation
+	wrote        map[string]bool
+	entryHeap    map[string]*smt.Term
+	entryPC      []*smt.Term
+	epoch        string
+	loops        map[*ssa.BasicBlock]*loopInfo
+	paths        int
+	maxPaths     int
+	unsup        []string
+	params       map[string]SVal // contract param name -> entry value
+	counters     map[string]int
+	inlineDepth  int
+	retHandler   func(s *State, results []Val) // non-nil while inlining
+	curInstr     ssa.Instruction
+	forks        []fork
+	curStop      *ssa.BasicBlock
+	curOut       *[]arrival
+	pdoms        map[*ssa.Function]map[*ssa.BasicBlock]*ssa.BasicBlock
+	noMerge      bool
+	mergeAfter   int
+	havocKeep    map[string]bool // write-restricted heap entries the call being havocked cannot change
+	cuts         map[ssa.Instruction]*spec.CutSpec
+	cutDone      map[*spec.CutSpec]bool
+	wholeFn      *loopInfo
+	forkCount    int
+	pkgShort     string
+	isInit       bool
+	returns      int
 }
 
 func (x *Exec) unsupported(format string, args ...any) {
@@ -1507,6 +1508,37 @@ func (x *Exec) keyReadsWritten(k *smt.Term, whole map[string]bool, keyed map[str
 
 func (x *Exec) havocAllHeap(s *State, tag string) {
 	keep := x.havocKeep
+	// fields of non-escaping struct locals survive: nothing outside this function has their address
+	type loc struct {
+		heap string
+		ref  *smt.Term
+	}
+	var locs []loc
+	var collect func(r *smt.Term, t types.Type, depth int)
+	collect = func(r *smt.Term, t types.Type, depth int) {
+		u, ok := t.Underlying().(*types.Struct)
+		if !ok || depth > 3 {
+			return
+		}
+		for i := 0; i < u.NumFields(); i++ {
+			ft := u.Field(i).Type()
+			if isStruct(ft) {
+				collect(x.E.subRef(t, i, r), ft, depth+1)
+				continue
+			}
+			name, _, _ := x.E.fieldHeap(t, i)
+			locs = append(locs, loc{name, r})
+		}
+	}
+	for _, ss := range x.stackStructs {
+		collect(ss.ref, ss.typ, 0)
+	}
+	saved := map[string]*smt.Term{}
+	for _, l := range locs {
+		if _, ok := saved[l.heap]; !ok {
+			saved[l.heap] = x.Heap(s, l.heap)
+		}
+	}
 	for h, srt := range x.E.HeapSorts {
 		if keep[h] {
 			continue
@@ -1515,7 +1547,18 @@ func (x *Exec) havocAllHeap(s *State, tag string) {
 		s.heap[h] = smt.Fresh(h+"$"+tag, srt)
 		x.wrote[h] = true
 	}
+	for _, l := range locs {
+		if keep[l.heap] {
+			continue
+		}
+		s.heap[l.heap] = smt.Store(s.heap[l.heap], l.ref, smt.Select(saved[l.heap], l.ref))
+	}
 	x.wrote["*"] = true
+}
+
+type stackStruct struct {
+	ref *smt.Term
+	typ types.Type
 }
 
 // val evaluates an SSA value operand.
